@@ -67,9 +67,15 @@ def _auto_function(cls):
             plan.append(("f", n))
             n += 1
 
-    def build(f):
-        return cls(*[(f[i] if k == "f" else i) for k, i in plan])
+    has_alias = "alias" in sig.parameters
 
+    def build(f, alias=None):
+        args = [(f[i] if k == "f" else i) for k, i in plan]
+        if alias is not None and has_alias:
+            return cls(*args, alias=alias)
+        return cls(*args)
+
+    build.takes_alias = has_alias
     return n, build
 
 
